@@ -20,3 +20,11 @@ Proof. reflexivity. Qed.
 
 Lemma skel_pop_ok : skel_pop = ["lock q.mu"; "defer unlock q.mu"]%string.
 Proof. reflexivity. Qed.
+
+(* priority.go: every exported method of PriorityQueue is ONE critical section of the queue mutex from its first
+   to its last statement - NextAll too: its callbacks run under the lock - which is what lets Model.C15_Queue.pq_conc
+   treat an operation of a task as one atomic step *)
+Lemma pq_methods_are_critical_sections :
+  pq_critical = [("Add", "whole"); ("NextAll", "whole"); ("Next", "whole"); ("Size", "whole")]%string /\
+  skel_pq_nextall = ["lock pq.muMessages"; "defer unlock pq.muMessages"]%string.
+Proof. split; reflexivity. Qed.
